@@ -228,6 +228,7 @@ def environment_state():
     the yaml package, but a later call - of the library or of anything else - observes them)."""
     import decimal
     import gc
+    import linecache
     import locale
     import os
     import signal
@@ -250,6 +251,7 @@ def environment_state():
         'env:signal.SIGINT': repr(signal.getsignal(signal.SIGINT)),
         'env:sys.excepthook': id(sys.excepthook),
         'env:sys.displayhook': id(sys.displayhook),
+        'env:linecache.cache': sorted(k for k in linecache.cache if not str(k).startswith('<')),
         'env:int_max_str_digits': sys.get_int_max_str_digits() if hasattr(sys, 'get_int_max_str_digits') else None,
     }
     return {k: jdump(v) for k, v in env.items()}
